@@ -758,7 +758,7 @@ fn push_numeric_triples(cases: &mut Vec<Case>, bi: usize, enc: Enc, numeric: &[E
 
 fn enumerate(tier: &str) -> (Vec<BaseSer>, Vec<Case>) {
     let quick = tier == "quick";
-    let bases = serialize_bases(2, if quick { 14 } else { 40 });
+    let bases = serialize_bases(if quick { 2 } else { 3 }, if quick { 14 } else { 120 });
     let mut cases = Vec::new();
     for (bi, b) in bases.iter().enumerate() {
         for (enc, toks) in [(Enc::Compact, &b.compact), (Enc::Human, &b.human)] {
